@@ -77,10 +77,17 @@ static int is_retained_metadata(uintptr_t a, uintptr_t b) {
   }
   return 0;
 }
-typedef struct snap_s { size_t os_bytes; size_t os_regions; size_t arena_resident; size_t total_resident; size_t arena_rw_unpurged; size_t mapped_total; uintptr_t first_os; size_t first_os_len; } snap_t;
+typedef struct snap_s { size_t arena_resident_body; size_t os_bytes; size_t os_regions; size_t arena_resident; size_t total_resident; size_t arena_rw_unpurged; size_t mapped_total; uintptr_t first_os; size_t first_os_len; } snap_t;
 static void snap_piece(snap_t* s, const vf_region_t* r, uintptr_t a, uintptr_t b) {
   if (in_arena(a, b)) {
     s->arena_resident += vf_os_resident_bytes(a, b);
+    /* the part that is neither the first slice (segment descriptor) nor the last slice (guard page of hardened builds) of a
+       segment-sized, segment-aligned unit: see known finding C11 "header slice in reset mode with lazy commit" */
+    for (uintptr_t u = a & ~(uintptr_t)(MI_SEGMENT_SIZE - 1); u < b; u += MI_SEGMENT_SIZE) {
+      uintptr_t lo = u + MI_SEGMENT_SLICE_SIZE, hi = u + MI_SEGMENT_SIZE - MI_SEGMENT_SLICE_SIZE;
+      if (lo < a) lo = a; if (hi > b) hi = b;
+      if (lo < hi) s->arena_resident_body += vf_os_resident_bytes(lo, hi);
+    }
     if (r->prot == VF_P_RW && !r->purged) s->arena_rw_unpurged += b - a;
   } else if (!is_retained_metadata(a, b)) {
     s->os_bytes += b - a; s->os_regions++;
@@ -246,6 +253,10 @@ static void footprint_case(long w) {
     }
     /* unless purging is disabled, arena memory is no longer committed (= holds no resident pages) */
     if (purge_delay >= 0 && s[r].arena_resident > base.arena_resident) {
+      if (vf_verbose && purge_delay >= 0 && s[r].arena_resident > base.arena_resident) vf_os_dump(2);
+      if (s[r].arena_resident_body <= base.arena_resident_body)
+        VIOL("arena-descriptor-slice-still-committed", "after free-all + mi_collect(true) (repetition %d) %zu bytes of arena memory are still resident (baseline %zu), all of them in the first (descriptor) or last (guard) 64 KiB slice of a freed segment", r, s[r].arena_resident, base.arena_resident);
+      else
       VIOL("arena-still-committed", "after free-all + mi_collect(true) (repetition %d) %zu bytes of arena memory are still resident (baseline %zu)", r, s[r].arena_resident, base.arena_resident);
       return;
     }
@@ -287,9 +298,9 @@ static long purge_calls_since(long mark) {
   for (long k = mark; k < vf_os.ncalls && k < VF_MAX_CALLS; k++) { const vf_call_t* c = &vf_os.calls[k]; if (c->kind == VF_C_MADVISE || (c->kind == VF_C_MPROTECT && c->arg == PROT_NONE)) n++; }
   return n;
 }
-enum { U_PAGE = 0, U_SEGMENT = 1, U_ALL = 2, U_MULTI = 3, U_CHURN = 4, NUNUSED = 5 };
+enum { U_PAGE = 0, U_SEGMENT = 1, U_ALL = 2, U_MULTI = 3, U_CHURN = 4, U_ARENAS = 5, NUNUSED = 6 };
 enum { A_FREE_OTHER_PAGE = 0, A_ALLOC_PAGE = 1, A_HUGE_ALLOC_FREE = 2, A_COLLECT = 3, A_FASTPATH = 4, NACT = 5 };
-static const char* u_names[] = { "page-in-live-segment", "whole-segment", "everything", "several-pages-of-one-segment", "several-pages-one-of-them-reused-repeatedly" };
+static const char* u_names[] = { "page-in-live-segment", "whole-segment", "everything", "several-pages-of-one-segment", "several-pages-one-of-them-reused-repeatedly", "four-huge-segments-possibly-in-four-arenas" };
 static const char* a_names[] = { "free-other-page", "alloc-page-in-segment", "alloc+free-17MiB", "collect(false)", "small-fast-path-only" };
 static void purge_case(long k) {
   int U = (int)(k / NACT), A = (int)(k % NACT);
@@ -314,12 +325,15 @@ static void purge_case(long k) {
     for (int i = 0; i < 9; i++) { more[i] = (uint8_t*)mi_malloc(1 * MiB); if (!more[i]) { VIOL("null-result", "set-up"); return; } memset(more[i], 5 + i, MiB);
       if (_mi_ptr_segment(more[i]) != _mi_ptr_segment(pa)) { vf_sh->infra_error = 1; fprintf(stderr, "set-up: pages not in one segment\n"); return; } }
   }
+  uint8_t* hus[4] = { NULL, NULL, NULL, NULL };
+  if (U == U_ARENAS) for (int i = 0; i < 4; i++) { hus[i] = (uint8_t*)mi_malloc(40 * MiB); if (!hus[i]) { VIOL("null-result", "set-up"); return; } memset(hus[i], 7 + i, 40 * MiB); }
   if (U == U_SEGMENT) { hu = (uint8_t*)mi_malloc(17 * MiB); if (!hu) { VIOL("null-result", "set-up"); return; } memset(hu, 4, 17 * MiB); }
   g_mark = vf_os.ncalls;
   int64_t T0 = vf_os.clock_ms;
   /* the event: something becomes unused at T0 */
   if (U == U_PAGE)         { lo = (uintptr_t)pb; hi = lo + 1 * MiB; mi_free(pb); pb = NULL; }
   else if (U == U_SEGMENT) { lo = (uintptr_t)hu; hi = lo + 17 * MiB; mi_free(hu); hu = NULL; }
+  else if (U == U_ARENAS) { for (int i = 0; i < 4; i++) { mlo[i] = (uintptr_t)hus[i]; mhi[i] = mlo[i] + 40 * MiB; mi_free(hus[i]); } nm = 4; lo = mlo[0]; hi = mhi[0]; }
   else if (U == U_MULTI) {
     uint8_t* f[4] = { pb, more[0], more[3], more[6] };     /* pages #1, #3, #6, #9 of the segment */
     for (int i = 0; i < 4; i++) { mlo[i] = (uintptr_t)f[i]; mhi[i] = mlo[i] + 1 * MiB; mi_free(f[i]); } nm = 4;
@@ -351,7 +365,7 @@ static void purge_case(long k) {
   /* Expiry: a page inside a live segment is due after `delay`; a segment that was returned to its arena after
      `delay * arena_purge_mult`. For "everything" the 1 MiB pages share their segment with retired small pages: the
      segment only goes back to the arena at the first collect, and the arena delay counts from then. */
-  expiry = (U == U_SEGMENT ? d * mult : d);
+  expiry = ((U == U_SEGMENT || U == U_ARENAS) ? d * mult : d);
   /* (1) before the delay has passed nothing of the range is purged, whatever ordinary activity happens */
   vf_os.clock_ms = T0 + expiry - 1;
   if (U == U_ALL) { mi_collect(false); }
@@ -369,11 +383,14 @@ static void purge_case(long k) {
     case A_ALLOC_PAGE:      { void* t = mi_malloc(300 * KiB); (void)t; expect = 0; break; }
     /* whole segments: the arena's purge point is reached by any arena free and by a non-forced collect */
     case A_HUGE_ALLOC_FREE: { void* t = mi_malloc(40 * MiB); mi_free(t); expect = (U == U_SEGMENT || U == U_ALL); break; }
-    case A_COLLECT:         mi_collect(false); expect = (U == U_SEGMENT || U == U_ALL); break;
+    /* (a non-forced pass purges at most two arenas and stays armed for the rest, one pass per delay period: three passes,
+       a delay period apart, reach four arenas) */
+    case A_COLLECT:         mi_collect(false); if (U == U_ARENAS) { vf_os.clock_ms += expiry + 1; mi_collect(false); vf_os.clock_ms += expiry + 1; mi_collect(false); } expect = (U == U_SEGMENT || U == U_ALL || U == U_ARENAS); break;
     case A_FASTPATH:        { void* t = mi_malloc(64); mi_free(t); expect = 0; break; }
   }
   size_t got = returned_bytes_in(lo, hi, g_mark, 1);   /* cumulative since the event; an immediate munmap counts */
-  if (expect && U == U_MULTI) {
+  if (expect && (U == U_MULTI || U == U_ARENAS)) {
+    if (U == U_ARENAS) need = span - 192 * KiB;
     for (int i = 0; i < nm; i++) {
       size_t g = returned_bytes_in(mlo[i], mhi[i], g_mark, 1);
       if (g < need) { VIOL("not-purged-after-delay", "%ld ms after becoming unused (delay %ld ms) activity '%s' returned only %zu of %zu bytes of unused page %d of 4 (no forced collect)", (long)(vf_os.clock_ms - T0), expiry, a_names[A], g, span, i + 1); return; }
@@ -430,6 +447,11 @@ static void fault_case(long ci) {
   snap_t base; mi_collect(true); take_snapshot(&base);
   long c0 = vf_os.ncalls;
   vf_os_plan_clear();
+#if MI_DEBUG
+  /* debug builds abort by design on a failing decommit: a second failure whose index lands on a madvise (the first failure
+     changed the call sequence) is not injected */
+  vf_os.never_fail_kinds = (1u << VF_C_MADVISE);
+#endif
   if (fc.plan == 0) { vf_os.fail_at[0] = c0 + fc.k; if (fc.k2 >= 0) vf_os.fail_at[1] = c0 + fc.k2; }
   else { vf_os.fail_from = c0 + fc.k; static const int plan_kind[] = { 0, VF_C_MMAP, VF_C_MPROTECT, VF_C_MADVISE, VF_C_MUNMAP }; vf_os.fail_kinds = (fc.plan == 5 ? 0xF : (1u << plan_kind[fc.plan])); }
   g_lenient = 1;
@@ -505,7 +527,7 @@ int main(int argc, char** argv) {
       if (g_pairs) for (long k = 0; k < n; k++) for (long k2 = k + 1; k2 < n; k2++) {
 #if MI_DEBUG
         if (k < 512 && g_dry_kinds[w][k] == VF_C_MADVISE) continue;   /* (the second index may land on a madvise after the first failure changed the sequence: */
-        if (k2 < 512 && g_dry_kinds[w][k2] == VF_C_MADVISE) continue; /*  such a case aborts in the debug assertion and is reported; none occurs on the pinned tree) */
+        if (k2 < 512 && g_dry_kinds[w][k2] == VF_C_MADVISE) continue; /*  the shim then does not refuse it: see fault_case) */
 #endif
         g_fcases[g_nfcases++] = (fcase_t){ w, 0, k, k2 };
       }
